@@ -389,8 +389,8 @@ class AbstractHasAxes(AbstractHasMetadata):
         if isinstance(axis, str):
             idx = self.dims.index(axis)
 
-        elif type(axis) is int:
-            idx = axis
+        elif type(axis) is int or isinstance(axis, np.integer):
+            idx = int(axis) # (a position may come out of a NumPy computation, np.argsort for instance)
 
         else:
             raise TypeError("axis must be int or str, got:"+repr(axis))
